@@ -139,6 +139,16 @@ func (c *Cluster) execOp(op string) {
 		c.deliver(k, f[0] == "dup")
 	case "drop":
 		c.drop(int(atou(f[1])))
+	case "steplocal":
+		// the application (wrongly) steps a local message type that claims to come from a peer:
+		// RawNode.Step must refuse it (ErrStepLocalMsg) and change nothing
+		if n := c.nodeArg(f[1]); n != nil && n.alive {
+			t := []pb.MessageType{pb.MsgHup, pb.MsgBeat, pb.MsgUnreachable, pb.MsgSnapStatus, pb.MsgCheckQuorum}[int(atou(f[2]))%5]
+			m := &pb.Message{Type: t.Enum(), From: new(n.id%5 + 1), To: new(n.id)}
+			c.mon.beforeStep(n, m)
+			n.step(m)
+			c.mon.afterOp(n, "step")
+		}
 	case "resnap":
 		if n := c.nodeArg(f[1]); n != nil {
 			back := 0
